@@ -353,4 +353,34 @@ theorem loop_balanced (lc : Bool) (ring : List Sec) (n : Nat) (zones : List Nat)
                   · simp at hm; subst hm; exact Or.inr hrep
                 · exact Or.inr hm
 
+/-! ### `dedup` -/
+
+theorem mem_dedup {a : Nat} : ∀ {l : List Nat}, a ∈ dedup l ↔ a ∈ l
+  | [] => by simp [dedup]
+  | b :: l => by
+    simp only [dedup]
+    by_cases h : l.contains b = true
+    · simp only [h, if_true, List.mem_cons]
+      rw [mem_dedup]
+      constructor
+      · exact Or.inr
+      · rintro (rfl | h')
+        · simpa using h
+        · exact h'
+    · simp only [h, Bool.false_eq_true, if_false, List.mem_cons]
+      rw [mem_dedup]
+
+theorem nodup_dedup : ∀ (l : List Nat), (dedup l).Nodup
+  | [] => by simp [dedup]
+  | b :: l => by
+    simp only [dedup]
+    by_cases h : l.contains b = true
+    · simp only [h, if_true]; exact nodup_dedup l
+    · simp only [h, Bool.false_eq_true, if_false]
+      rw [List.nodup_cons]
+      refine ⟨?_, nodup_dedup l⟩
+      rw [mem_dedup]
+      simpa using h
+
+
 end Thanos.Hashring
